@@ -14,8 +14,24 @@ What is proved, for every program list and EVERY schedule:
 * `claimed_plus_todo` — at every moment every push argument is either still to be claimed or sits in exactly
   one claimed slot;
 * the full statement with clearers is FALSE of the code: `k1_straggler_lost` (known finding K-C05-K1).
+
+For ANY mix of threads (pushers, snapshot readers, clearers, is_empty callers), any programs, EVERY schedule:
+* `all_threads_structural` — no two threads ever own the same slot, every publishing thread's slot holds its
+  own argument, unpublished slots = threads between slot write and publish;
+* `all_threads_claimed_plus_todo` — every push argument is either still to be claimed or sits in exactly one
+  claimed slot (no slot overwritten, no push claims twice), also while clears detach blocks under the pushers;
+* `never_invents` — every value ever handed to a snapshot or clear callback is the argument of a push in the
+  programs (and `never_invents_count`: the slots holding `v` never outnumber the pushes of `v`);
+* `never_duplicates` — at every moment, value by value, (what clears have delivered so far) + (what a snapshot
+  could still see) ≤ (pushes of that value): no sample is delivered to two clears, delivered twice by one clear,
+  or both delivered and still reported.  Proof by ghost ownership of blocks (`Proofs/BucketClear.lean`): the
+  live chain and every running clear's remaining chain are disjoint contiguous index ranges.
+So the ONLY way the full statement fails for the code is loss (a completed push that is neither delivered nor
+visible), and `k1_straggler_lost` shows that this does happen.
 -/
 import MetricsVerif.Proofs.Bucket
+import MetricsVerif.Proofs.BucketAll
+import MetricsVerif.Proofs.BucketClear
 
 namespace MetricsVerif.C05
 open MetricsVerif.Bucket
@@ -95,6 +111,62 @@ theorem pushers_conserved (B : Nat) (progs : List (List Call)) (hp : PushOnly pr
   rw [List.perm_iff_count]
   intro v
   rw [pushers_conserved_count B progs hp sched hq v, count_pushVal]
+
+/-! ### any mix of threads: structure, accounting, and "never invents" in every interleaving -/
+
+/-- every reachable state of ANY programs satisfies the structural invariant -/
+theorem all_threads_structural (B : Nat) (progs : List (List Call)) (sched : List Nat) :
+    AInv (run (init B progs) sched) := (arun_inv2 sched _ (init_ainv2 B progs)).inv
+
+/-- claimed + to-do is constant for ANY programs (pushers racing snapshots, clears and is_empty) -/
+theorem all_threads_claimed_plus_todo (B : Nat) (progs : List (List Call)) (sched : List Nat) (v : Nat) :
+    cellsCount v (run (init B progs) sched) + todoSum v (run (init B progs) sched)
+      = progs.flatten.count (.push v) := by
+  rw [arun_vals v sched _ (init_ainv2 B progs), todoSum_init]
+  simp [cellsCount, init]
+
+/-- slots holding `v` never outnumber the pushes of `v` -/
+theorem never_invents_count (B : Nat) (progs : List (List Call)) (sched : List Nat) (v : Nat) :
+    cellsCount v (run (init B progs) sched) ≤ progs.flatten.count (.push v) := by
+  have := all_threads_claimed_plus_todo B progs sched v; omega
+
+/-- **never invents**: whatever a snapshot or a clear hands to its callback — in any interleaving of any
+    threads — is the argument of some push -/
+theorem never_invents (B : Nat) (progs : List (List Call)) (sched : List Nat) (i : Nat) (t : Thread)
+    (ht : (run (init B progs) sched).threads[i]? = some t) (v : Nat) (hv : v ∈ seenVals t) :
+    Call.push v ∈ progs.flatten := by
+  have h1 := arun_seen sched _ (init_ainv2 B progs) (init_seen B progs) i t ht v hv
+  have h2 := never_invents_count B progs sched v
+  exact List.count_pos_iff.mp (by omega)
+
+/-- **never duplicates**: for ANY programs and EVERY schedule, at every moment and for every value, what the
+    clears have delivered plus what a snapshot taken now could still see never exceeds the pushes of that value -/
+theorem never_duplicates (B : Nat) (progs : List (List Call)) (sched : List Nat) (v : Nat) :
+    (delivered (run (init B progs) sched)).count v + (visible (run (init B progs) sched)).count v
+      ≤ progs.flatten.count (.push v) := by
+  have h1 := delivered_visible_le_cells B progs sched v
+  have h2 := never_invents_count B progs sched v
+  omega
+
+/-- the ownership invariant behind `never_duplicates` holds in every reachable state -/
+theorem ownership_invariant (B : Nat) (progs : List (List Call)) (sched : List Nat) :
+    GInv (run (init B progs) sched) (grun (init B progs) own0 sched).2 := by
+  have := (grun_inv sched _ _ (init_ginv B progs) (init_gacc B progs)).1
+  rw [grun_fst] at this; exact this
+
+/-- non-vacuity for `never_duplicates`: two clears and a pusher over a block hand-over (block size 1); the two
+    clears deliver disjoint values and one value is still visible -/
+example :
+    let progs : List (List Call) := [[.push 1, .push 2, .push 3], [.clear], [.clear]]
+    let s := run (init 1 progs) [0,0,0,0,0, 1,1,1,1,1,1, 0,0,0,0, 2,2,2,2,2,2,2, 0,0,0,0,0]
+    delivered s = [1, 2] ∧ visible s = [3] ∧ quiescent s = true := by decide
+
+/-- non-vacuity: a clearer and a snapshot reader racing two pushers (block size 2): the values seen are exactly
+    push arguments, and the reachable state has seen something -/
+example :
+    let progs : List (List Call) := [[.push 1, .push 2], [.push 3], [.clear], [.data]]
+    let s := run (init 2 progs) [0, 0, 0, 0, 0, 1, 1, 1, 1, 1, 3, 3, 3, 3, 3, 3, 3, 3, 2, 2, 2, 2, 2, 2, 2, 2, 0, 0, 0, 0, 0, 0, 0, 0]
+    (s.threads.map seenVals) = [[], [], [1, 3], [1, 3]] ∧ quiescent s = true := by decide
 
 /-! ### the full statement is false of the code: a straggler push on a detached block (K-C05-K1)
 
